@@ -132,6 +132,7 @@ def gen_case(seed, i):
         # the "symlink" spelling refers to roots by position: keep it for the original roots only
         spell = [("abs" if (h == "symlink") else h) for h in spell]
     return {"i": i, "world": w.to_json(), "roots": roots, "flags": flags, "spell": spell,
+            "basedir": rng.choice([None, None, None, "abs", "rel"]),
             "threads": rng.choice(["1", "2", "0"])}
 
 
@@ -209,7 +210,10 @@ def run_case(case):
                 roots = [spelled(rd, r, case["spell"][k], k) for k, r in enumerate(case["roots"])]
             else:
                 roots = [os.path.join(rd.world, r) for r in case["roots"]]
-            res = ops.group(rd, roots, args, env=env, cwd=rd.world, seed=5)
+            bd = case.get("basedir") if which == "spelled" else None
+            # the spelled run may be started elsewhere, with --base-dir naming the directory relative roots belong to
+            res = ops.group(rd, roots, (["--base-dir", rd.world if bd == "abs" else os.path.relpath(rd.world, rd.base)] if bd else []) + args,
+                            env=env, cwd=rd.base if bd else rd.world, seed=5)
             traces.append(res.trace)
             if res.timed_out:
                 viol.append({"clause": "terminates", "detail": "group hung"})
